@@ -1237,6 +1237,17 @@ def loopback(ctx, nchan, total, label, plan=None, window=None):
         for k in range(rekeys):
             if not phased:
                 time.sleep(0.05)
+            # renegotiate_keys() returns when the CALLER has switched keys; the peer may still be about to process
+            # NEWKEYS.  Starting the next exchange from that peer before it is out of the previous one is a misuse of
+            # the manual API (it is not guarded by in_kex as the automatic re-key is), so wait for both sides.
+            t_kex = time.time() + 30
+            while (tc.in_kex or ts.in_kex or not tc.clear_to_send.is_set() or not ts.clear_to_send.is_set()) \
+                    and time.time() < t_kex:
+                time.sleep(0.01)
+            # (_parse_newkeys clears in_kex and only afterwards sets clear_to_send: an application-thread
+            # renegotiate_keys() squeezed in between gets its clear_to_send.clear() undone and user data then follows
+            # the new KEXINIT -- "Expecting packet from (31,), got 94".  Re-key robustness is C11's subject; here the
+            # next exchange simply starts once the previous one has fully finished on both sides.)
             try:
                 (tc if k % 2 == 0 else ts).renegotiate_keys()
             except Exception as e:  # noqa
